@@ -47,6 +47,29 @@ CHECKS['C16'] = dict(
          '(all completion orders), traces are validated by TLC, and outputs are compared with the sync flavour run on the same scenario.',
     design_ref='DESIGN.md section 6 C16', note=TB + '; asyncio pure-Python Future/Task are used instead of the C accelerators')
 
+SRV = TB + '; the servlet tree is a ThreadServlet of harness workers (the abstract pipeline of the spec)'
+CHECKS['C06'] = dict(
+    technique='TLA+ spec ServerCore (ledger, capacity condition with waiter list, gather + notification thread) checked by TLC: '
+              'capacity invariant, clean rejection, no lost response, liveness of slot return; TLC trace validation of the real '
+              'Server/AsyncServer under a deterministic scheduler with virtual time',
+    text='TLC enumerates all interleavings of up to 4 callers of every kind mix (backpressure / waiting / short deadline / '
+         'abandoned stream element) with the gather and notification threads for capacity 1 and 2, sync and async flavour, and '
+         'checks CapacityInv, RejectClean, NoLostResponse, IdleEmpty, deadlock-freedom and (FairSpec) SlotsReturned; the '
+         'as-found variants (no re-check after wake-up; input queued before the ledger entry) must violate them.  The real '
+         'servers run under detsched with the backlog logged at every ledger insert/pop and the condition traffic logged; every '
+         'trace is validated by TLC, which compares the backlog with the model and evaluates the invariants on every state.',
+    design_ref='DESIGN.md section 6 C06', note=SRV)
+CHECKS['C07'] = dict(
+    technique='TLA+ spec ServerCore with deadline / cancel / abandon actions interleaved with the gather thread\'s pop / check / '
+              'set steps, checked by TLC (gather thread never dies, others answered under fairness); TLC trace validation of real '
+              'executions under bounded-lag adversarial virtual time',
+    text='Every relative order of {deadline expiry, cancel, early stream close} and {gather get, pop, cancelled?, set_result} is a '
+         'path of spec/ServerCore.tla; TLC checks GatherAlive, OwnResult, NoLostResponse and the liveness properties '
+         'OthersAnswered / AllReturn; the as-found unguarded set_result must kill the gather thread in the model.  The real '
+         'Server and AsyncServer run with deadlines comparable to service times under a scheduler that may fire due timers while '
+         'threads are runnable; each trace is validated by TLC and the server must exit with no thread left.',
+    design_ref='DESIGN.md section 6 C07', note=SRV)
+
 ALL = ['C%02d' % i for i in range(1, 21)]
 
 
